@@ -27,9 +27,11 @@ T2 = {
     "arith-api|%sestimate_duration_with_frame_length|sum|0" % DE:
         (r"sum\(", "sum of per-state frame counts"),
     "unwrap|%sestimate_duration_with_frame_length|Option::unwrap|0" % DE:
-        (r"min_by\(.*zip\(", "the duration vector is non-empty here (is_empty() returned false on the dominating edge)"),
+        (r"min_by\(.*zip\(|^Option::unwrap\(%1\)\s*$", "the duration vector is non-empty here (is_empty() returned false on the dominating edge), so the search over all states (a min_by chain, or a hand-written loop leaving its result in a local) finds one",
+         [r"^false: .*is_empty\((duration::DurationEstimator::estimate_duration\(|duration_params\))"]),
     "unwrap|%sestimate_duration_with_frame_length|Option::unwrap|1" % DE:
-        (r"min_by\(.*filter\(", "sum > target >= number of states (target <= size returned early), so some state has more than one frame and the filter is non-empty"),
+        (r"min_by\(.*filter\(|^Option::unwrap\(%1\)\s*$", "sum > target >= number of states (target <= size returned early), so some state has more than one frame and the candidate set (filter / hand-written search, judged by C01-R3) is non-empty",
+         [r"^false: Le\(.*, len\(duration_params\)\)$"]),
     "unwrap|label::Labels::load_from_strings|Option::expect|0":
         (r"splitn\(", "the first item of splitn on a fresh iterator is always Some"),
     "unwrap|mlpg_adjust::mask::Mask::fill::{closure#0}|Option::expect|0":
@@ -89,10 +91,22 @@ def t1(s):
         d = x.get("divisor")
         if d is not None and is_const(d) and d[1] not in (0, False):
             return "divisor is the non-zero constant %s" % d[1]
+        if d is not None:
+            from .c18 import const_small
+            v = const_small(d)
+            if v is not None and 0 < v < 2 ** 63:
+                return "divisor is the constant expression %s = %d (its own overflow check is a separate site)" % (show(d)[:40], v)
     if k == "clamp":
         a = x.get("args") or []
         if len(a) == 3 and is_const(a[1]) and is_const(a[2]) and float(a[1][1]) <= float(a[2][1]):
             return "clamp bounds are constants with min <= max"
+    if k == "slice-api" and s.api and "split_at" in s.api and s.fn.startswith("mlpg_adjust::mlpg::MlpgMatrix::"):
+        a = x.get("args") or []
+        if len(a) == 2 and show(a[0]) == "self.wuw":
+            from ..ledger import _range_loop_var
+            r = _range_loop_var(s.body, ExprBuilder(s.body), a[1])
+            if r and show(r[1]) == "self.length" and not r[2]:
+                return "split point is a loop variable of 0..self.length, and wuw has self.length rows (C01-R7)"
     if k == "slice-api" and s.api == "step_by":
         a = x.get("args") or []
         if len(a) == 2 and is_const(a[1]) and a[1][1] not in (0,):
@@ -131,6 +145,10 @@ def run(ctx):
         okb = False
         for t in allocs:
             a = eb.op(t["args"][1])
+            # a.saturating_sub(b) is a - b wherever a - b does not underflow (where the plain
+            # subtraction of the pinned tree would have panicked it is 0: more total, same value)
+            from ..loops import rewrite as _rw
+            a = _rw(a, lambda n: ("bin", "Sub", n[2][0], n[2][1]) if n[0] == "call" and n[1].endswith("saturating_sub") and len(n[2]) == 2 else None)
             pol = to_poly(a)
             L = Poly.atom(("len", canon(("field", ("arg", 1, "self"), "lf0"))))
             nx = Poly.atom(canon(("field", ("arg", 1, "self"), "next")))
@@ -203,7 +221,8 @@ def run(ctx):
             ctx.fail("C01-R1", cr.path, "row count", "the trajectory does not have one row per mask entry: %s" % [show(x)[:120] for x in rows], cr.loc())
     mc = cm.body_or_fail(ctx, p, "C01-R1", "mlpg_adjust::mask::Mask::create")
     if mc is not None:
-        ret = show(ExprBuilder(mc).local(0))
+        from ..expr import builder_with_collect_loops
+        ret = show(builder_with_collect_loops(mc).local(0))
         from .c11 import mask_loop_form
         if "IterExt>::duration(std::iter::Iterator::map(stream" in ret and ret.count("durations") == 1 and "collect" in ret:
             ctx.ok("C01-R1", "Mask::create = collect(duration(map(stream.iter(), flag), durations))", mc.loc())
@@ -323,6 +342,8 @@ def run(ctx):
                         r = ExprBuilder(cb).local(0)
                         if r[0] == "bin" and r[3][0] == "c" and ((r[1] == "Gt" and r[3][1] >= 1) or (r[1] == "Ge" and r[3][1] >= 2)) and d.const_value() == -1:
                             okf = True
+                if not okf and d.const_value() == -1:
+                    okf = c08.candidate_filtered(fl, tgt)      # hand-written arg-min over candidates > 1
                 if okf:
                     ctx.ok("C01-R3", "every `-= 1` on a duration comes from an iterator filtered by `> 1`", cm.loc_of(st["span"]))
                 else:
@@ -692,6 +713,12 @@ FDIV_T2F = [
      "fperiod >= 1 (C20-R1), so the divisor is >= 1e7"),
     ("mlpg_adjust::mlpg::MlpgGlobalVariance::<'a>::next_step", r"^Sub\(Mul\(Mul\(Neg\(1\.0\{W1\}\)",
      "quasi-Newton step size 1/h: h is a sum of data-dependent terms, zero only by exact cancellation - numerical, not `out of nothing` (not decided)"),
+    ("mlpg_adjust::mlpg::MlpgMatrix::ldl_factorization", r"^(self\.wuw\[.*\]|core::slice::<impl \[T\]>::split_at_mut\(self\.wuw, .*\)\.1\[0\])\[0\]$",
+     "the pivot D[t] of the LDL^T factorisation of W'U^-1 W: positive when every frame's static precision is positive (ASSUMPTION, voice-format fact: static variances are finite and positive; masked dynamic rows only add non-negative terms); its staying positive under rounding is numerical (not decided)"),
+    ("mlpg_adjust::mlpg::MlpgMatrix::substitutions", r"^self\.wuw\[.*\]\[0\]$",
+     "the same pivot D[t], read back in the backward substitution"),
+    ("vocoder::generalized::Generalized::gnorm", r"^Add\(1\.0, Mul\(vocoder::generalized::Generalized::gamma\(self\), self\[0\]\)\)$",
+     "k = 1 + gamma*c0; on the only path that reaches it (lsp2mgc -> ignorm -> mgc2mgc -> gnorm) c0 = (K^gamma - 1)/gamma, so k = K^gamma > 0 for a positive frame gain K; a non-positive linear gain is outside the stable range the finiteness clause is conditioned on"),
     ("vocoder::cepstrum::MelCepstrum::postfilter_mcp", r"CoefficientsT::b2en\(",
      "e2 = sum ir^2 with ir[0] = exp(c0) > 0 (C14-R5), so e2 > 0"),
     ("vocoder::cepstrum::MelGeneralizedCepstrum::mgc2mgc", r"^Sub\(1\.0, Mul\(self\.alpha, ",
@@ -709,13 +736,20 @@ def _positive_guard_f(gs, xs):
         if g[0] not in ("true", "false"):
             continue
         pos, c = paths.bool_atoms(g)
-        if c[0] != "bin" or show(c[2]) != xs or c[3][0] != "c":
+        if c[0] != "bin" or c[3][0] != "c":
             continue
         try:
             v = float(c[3][1])
         except (TypeError, ValueError):
             continue
         op = c[1]
+        # |x| >= c > 0 (written as not (|x| < c)): x is not zero; a NaN passes the test, but NaN in,
+        # NaN out is not "out of nothing"
+        if c[2][0] == "call" and c[2][1] == "f64::abs" and len(c[2][2]) == 1 and show(c[2][2][0]) == xs:
+            if (v > 0.0 and ((op == "Lt" and not pos) or (op == "Ge" and pos))) or (v >= 0.0 and ((op == "Gt" and pos) or (op == "Le" and not pos))):
+                return True
+        if show(c[2]) != xs:
+            continue
         if v == 0.0 and ((op == "Ne" and pos) or (op == "Eq" and not pos) or (op == "Gt" and pos) or (op == "Le" and not pos) or (op == "Lt" and pos)):
             return True
     return False
@@ -770,13 +804,32 @@ def r8(ctx, p, cg, K):
     for path in sorted(K):
         b = p.bodies[path]
         eb = ExprBuilder(b)
-        for bb, i, st in b.iter_stmts():
-            if not (st["k"] == "assign" and st["rv"]["k"] == "binop" and st["rv"]["op"] == "Div"):
-                continue
+        divs = [(bb, i, st, None) for bb, i, st in b.iter_stmts() if st["k"] == "assign" and st["rv"]["k"] == "binop" and st["rv"]["op"] == "Div"]
+        # `1.0 / x` with x: &f64 is the operator-trait call <f64 as Div<&f64>>::div, not a MIR binop
+        for bb, t in b.calls():
+            c_ = t["callee"]
+            if c_["k"] == "fndef" and re.search(r"^<&?(f64|f32) as std::ops::Div<&?(f64|f32)>>::div$", cm.callee_name(c_)) and len(t["args"]) == 2:
+                divs.append((bb, None, {"k": "assign", "place": t["dest"], "rv": {"k": "binop", "op": "Div", "a": t["args"][0], "b": t["args"][1]}, "span": t["span"]}, t))
+        for bb, i, st, via_call in divs:
             den = eb.at(bb, i).op(st["rv"]["b"])
+            if b.kind == "Closure" and den[0] == "upvar":
+                # a captured divisor is the value it was bound to (`let n = self.fperiod as f64; .. |x| x / n`)
+                try:
+                    from ..expr import resolve_upvars as _ru
+                    den = _ru(p, b, den)
+                except Exception:  # noqa: BLE001
+                    pass
             if not (den[0] == "cast" and den[1] in ("f64", "f32") and den[3] not in ("f64", "f32")):
                 # a float divisor that is not a converted count
                 rty = b.local_ty(st["place"]["local"]) if not st["place"]["proj"] else "?"
+                if rty == "?":
+                    # result stored straight into a projected place (`*x = a / b`, `v[i] = a / b`):
+                    # take the type from the operands
+                    for o_ in (st["rv"]["a"], st["rv"]["b"]):
+                        if o_.get("k") == "const" and o_.get("ty") in ("f64", "f32"):
+                            rty = o_["ty"]
+                        elif o_.get("k") in ("move", "copy") and not o_["place"]["proj"] and b.local_ty(o_["place"]["local"]) in ("f64", "f32"):
+                            rty = b.local_ty(o_["place"]["local"])
                 if den[0] == "c" or rty not in ("f64", "f32"):
                     continue
                 nf += 1
